@@ -10,9 +10,10 @@ def run(chk):
     exes = lib.build_impl(); mdl = lib.build_model()
     q = chk.tier == "quick"
     texts = ["s://u@h:8/a/b?q#f", "//1.2.3.4/x", "//[::1]/x", "//[vF.x]/A", "//H%41/%7e", "a/../b", "/", "", "s:", "//h", "//u@h:", "HTTP://EX/%2e/./x/..", "s:/.//a",
-             "//[::A:B]/x", "s://U@[Ab::1.2.3.4]:8/A?Q#F", "//[VF.X]", "//1.2.3.4/%41", "S://[::1]"]
+             "//[::A:B]/x", "s://U@[Ab::1.2.3.4]:8/A?Q#F", "//[VF.X]", "//1.2.3.4/%41", "S://[::1]",
+             "/..//.", "s:/a/..//b", "a/..///b"]      # the guard segment of normalization: its "." must be a block of the object's own
     texts += uris.valid_texts(mdl, uris.small_texts(2, alphabet=uris.SEG_FULL, auths=(None, "//H%41", "//u@[::1]:8", "//1.2.3.4", "//[vF.x]"), schemes=(None, "S"), queries=(None, "%7e"), frags=(None, "F")))
-    if q: texts = texts[:18] + chk.rng.sample(texts[18:], 250)
+    if q: texts = texts[:21] + chk.rng.sample(texts[21:], 250)
     reqs = []
     for t in texts:
         reqs.append("makeowner " + uris.P(t))
